@@ -20,7 +20,7 @@ fn applicable(s: Solver, f: Family) -> bool {
 fn main() {
     let ctx = Ctx::from_args("C09");
     ctx.level("exploration");
-    ctx.rule("E1: six families (1-D Laplacian, arrowhead SPD, symmetric indefinite dominant, nonsymmetric dominant with mixed-sign diagonal, upwind convection-diffusion, scattered dominant) x orders {1,2,3,5,8,13,21,34,60} (quick: 18 orders up to 34 covering every residue mod 8) x 7 construction paths of the sparse matrix (3 triplet orders, entry-by-entry inserts, double transpose, overwrite + scale, explicitly stored zeros) x right-hand sides {A x*, 0, 1e6 A x*} x guesses {0, exact solution, fixed non-zero} x tol {1e-12,1e-8,1e-3} x solvers (CG on the SPD families; BiCG itol 1/2, BiCGSTAB, QMR on the strictly diagonally dominant ones), every combination. Oracle: Ok(k) with k <= 6n+30; ||x - x_direct||_inf <= 10 tol ||A^-1||_inf ||b||_2 + 100 cond eps ||x|| with x_direct and the inverse from an independent dense LU; exact guess and zero/zero start => Ok with finite x. Plus every symmetric strictly dominant matrix with positive diagonal (SPD) of order 4 over 3 letters (quick) / order 4 over 5, order 5 over 3, order 6 over 2 letters (thorough), each through one of the 7 construction paths, 3 rhs x 3 guesses x 2 tolerances, all five solvers. Non-trivial: nonsymmetric systems, exact-guess starts, zero right-hand sides, orders >= 13.");
+    ctx.rule("E1: six families (1-D Laplacian, arrowhead SPD, symmetric indefinite dominant, nonsymmetric dominant with mixed-sign diagonal, upwind convection-diffusion, scattered dominant) x orders {1,2,3,5,8,13,21,34,60} (quick: 18 orders up to 34 covering every residue mod 8) x 7 construction paths of the sparse matrix (3 triplet orders, entry-by-entry inserts, double transpose, overwrite + scale, explicitly stored zeros) x right-hand sides {A x*, 0, 1e6 A x*, 2^332 A x*, 2^-332 A x*} x guesses {0, exact solution, fixed non-zero} x tol {1e-12,1e-8,1e-3} x solvers (CG on the SPD families; BiCG itol 1/2, BiCGSTAB, QMR on the strictly diagonally dominant ones), every combination. Oracle: Ok(k) with k <= 6n+30; ||x - x_direct||_inf <= 10 tol ||A^-1||_inf ||b||_2 + 100 cond eps ||x|| with x_direct and the inverse from an independent dense LU; exact guess and zero/zero start => Ok with finite x. Plus every symmetric strictly dominant matrix with positive diagonal (SPD) of order 4 over 3 letters (quick) / order 4 over 5, order 5 over 3, order 6 over 2 letters (thorough), each through one of the 7 construction paths, 3 rhs x 3 guesses x 2 tolerances, all five solvers. Non-trivial: nonsymmetric systems, exact-guess starts, zero right-hand sides, orders >= 13.");
     ctx.assume("all matrix and vector data are small dyadic rationals, so the exact guess has an exactly zero residual in f64");
     ctx.assume("the iteration bound 6n+30 and the accuracy slack are calibrated on the repaired tree (worst observed values are recorded)");
     ctx.threshold("iterations_over_cap", 1.0);
@@ -31,7 +31,7 @@ fn main() {
     for &n in &sizes {
         for f in FAMILIES.iter() {
             for order in 0..7usize {
-                for rhs in 0..3usize {
+                for rhs in 0..5usize {
                     for g in 0..3usize {
                         cases.push((n, *f, order, rhs, g));
                     }
@@ -40,7 +40,7 @@ fn main() {
         }
     }
     ctx.lattice(
-        &format!("well-posed families: orders {:?} x 6 families x 7 construction paths (3 triplet orders, insert by insert, double transpose, overwrite + scale, explicitly stored zeros) x 3 rhs x 3 guesses (x 3 tolerances x applicable solvers inside)", sizes),
+        &format!("well-posed families: orders {:?} x 6 families x 7 construction paths (3 triplet orders, insert by insert, double transpose, overwrite + scale, explicitly stored zeros) x 5 rhs x 3 guesses (x 3 tolerances x applicable solvers inside)", sizes),
         cases.len() as u64,
         |i| format!("{:?}", cases[i as usize]),
         |i, acc| {
@@ -48,13 +48,16 @@ fn main() {
             let d = family(f, n);
             let a = sparse_of(&d, order);
             let xs = xstar(n);
-            let scale = if rhs == 2 { 1e6 } else { 1.0 };
+            // right-hand sides of any scale: 1, 0, 1e6 and the powers of two next to 1e100 and 1e-100
+            let scale = match rhs { 2 => 1e6, 3 => 2.0f64.powi(332), 4 => 2.0f64.powi(-332), _ => 1.0 };
             let exact: Vec<f64> = if rhs == 1 { vec![0.0; n] } else { xs.iter().map(|v| v * scale).collect() };
             let b: Vec<f64> = matvec(&d, &exact);
             let x0: Vec<f64> = match g {
                 0 => vec![0.0; n],
                 1 => exact.clone(),
-                _ => (0..n).map(|k| if k % 2 == 0 { 0.5 } else { -2.0 }).collect(),
+                // a generic guess of the problem's own scale (a guess 1e100 times larger than the solution makes the relative
+                // residual criterion unattainable: forming b - A x0 already loses b entirely)
+                _ => (0..n).map(|k| (if k % 2 == 0 { 0.5 } else { -2.0 }) * if rhs >= 3 { scale } else { 1.0 }).collect(),
             };
             if f.nonsymmetric() {
                 acc.nontriv("nonsymmetric system");
@@ -107,7 +110,8 @@ fn main() {
                         ensure!(k <= cap, "Ok({}) exceeds the iteration cap {}", k, cap);
                         ensure!(x.vec.iter().all(|v| v.is_finite()), "Ok({}) but x is not finite: {:?}", k, &x.vec[..n.min(6)]);
                         let err = (0..n).map(|i| (x[i] - direct[i]).abs()).fold(0.0, f64::max);
-                        let bound = 10.0 * tol * ainv * bn + 100.0 * kappa * EPS * norm_inf(&direct) + 1e-300;
+                        // forming b - A x0 already costs eps |A| |x0|: a guess far larger than the solution limits the attainable accuracy
+                        let bound = 10.0 * tol * ainv * bn + 100.0 * kappa * EPS * (norm_inf(&direct) + norm_inf(&x0)) + 1e-300 * scale.min(1.0);
                         ensure!(err <= bound, "Ok({}) but ||x - x_direct||_inf = {:e} > {:e} (tol {:e}, cond {:e})", k, err, bound, tol, kappa);
                         if g == 1 {
                             ensure!(k == 0 || err <= bound, "exact guess was degraded");
@@ -286,6 +290,56 @@ fn main() {
                             }
                         }
                     }
+                }
+            },
+        );
+    }
+    // Right-hand sides beyond 1e155 in norm: r.r overflows (below 1e-155: underflows) in CG, BiCG and BiCGSTAB, which then
+    // fail on a perfectly conditioned system; QMR normalises its vectors and survives. The property says "right-hand
+    // sides of any scale": genuine, not repaired (it needs scaled inner products throughout three solvers), listed.
+    {
+        let reps: Vec<(Solver, i32)> = vec![(Solver::Cg, 532), (Solver::Cg, -532), (Solver::Bicg1, 532), (Solver::Bicg1, -532), (Solver::Bicgstab, 532), (Solver::Bicgstab, -532)];
+        let space = "right-hand sides beyond the range of r.r (scale 2^+-532 ~ 1e+-160)";
+        ctx.known_finding_space(space);
+        let rp = reps.clone();
+        ctx.lattice(
+            space,
+            reps.len() as u64 + 2,
+            |i| format!("{}", i),
+            |i, acc| {
+                acc.nontriv("extreme right-hand-side scale");
+                // tridiag(-1, 4, -1) of order 5: SPD and strictly diagonally dominant, condition number < 3
+                let n = 5;
+                let mut d = vec![vec![0.0f64; n]; n];
+                for k in 0..n {
+                    d[k][k] = 4.0;
+                    if k + 1 < n {
+                        d[k][k + 1] = -1.0;
+                        d[k + 1][k] = -1.0;
+                    }
+                }
+                let (s, e) = if (i as usize) < rp.len() { rp[i as usize] } else { (Solver::Qmr, if i as usize == rp.len() { 532 } else { -532 }) };
+                let sc = 2.0f64.powi(e);
+                let xs: Vec<f64> = vec![1.0, -2.0, 0.5, 3.0, -1.0];
+                let b: Vec<f64> = matvec(&d, &xs).iter().map(|v| v * sc).collect();
+                let a = sparse_of(&d, 0);
+                let key = || format!("scale-overflow {:?} tridiag(-1,4,-1) n=5 b = 2^{} * A*(1,-2,0.5,3,-1) x0=0 tol=1e-10", s, e);
+                let res = catch(|| -> Result<(), String> {
+                    let bv = Vector::create(b.clone());
+                    let mut x = Vector::create(vec![0.0; n]);
+                    match run(s, &a, &bv, &mut x, iteration_cap(n), 1e-10) {
+                        Ok(_) => {
+                            let err = (0..n).map(|k| (x[k] / sc - xs[k]).abs()).fold(0.0, f64::max);
+                            ensure!(err <= 1e-8, "Ok but x / 2^{} differs from the solution by {:e}", e, err);
+                            Ok(())
+                        }
+                        Err(r) => Err(format!("no success within {} iterations on a well-conditioned SPD system (Err({:e})); x = {:?}", iteration_cap(n), r, x.vec)),
+                    }
+                });
+                match res {
+                    Ok(Ok(())) => {}
+                    Ok(Err(e)) => acc.fail(i, key(), e),
+                    Err(p) => acc.fail(i, key(), format!("unexpected panic: {}", p)),
                 }
             },
         );
